@@ -294,8 +294,113 @@ Section FaultHigh.
         + destruct (match s_pkname sc with [] => None | _ :: _ => _ end) as [ind|]; cbn [snd]; [|apply ext_refl].
           apply failing_grows; intros dbkey. apply indexed_select_eq_grows.
     Qed.
+    (* the fault-free operations only add to the caller's state *)
+    Lemma h_select_grows sc table columns s : ext s (snd (h_select pg op npages S cb sc table columns s)).
+    Proof.
+      unfold h_select. apply with_master_grows; intros ms; destruct (s_worowid sc).
+      - apply failing_grows; intros ci. apply failing_grows; intros root. apply index_scan_grows; try assumption. intros r; apply cb_grows.
+      - apply failing_grows; intros ci. apply failing_grows; intros root. apply table_scan_grows; try assumption. intros k r; apply cb_grows.
+    Qed.
+    Lemma h_select_rowid_grows sc table rowid columns s : ext s (snd (h_select_rowid pg op npages S cb sc table rowid columns s)).
+    Proof.
+      unfold h_select_rowid. apply with_master_grows; intros ms; destruct (s_worowid sc); cbn [snd]; [apply ext_refl|].
+      apply failing_grows. intros [rw|]; cbn [snd]; [apply cb_grows|apply ext_refl].
+    Qed.
+    Lemma h_indexed_select_grows sc table iname columns s : ext s (snd (h_indexed_select pg op npages S cb sc table iname columns s)).
+    Proof.
+      unfold h_indexed_select. apply with_master_grows; intros ms; destruct (find_index sc iname) as [ind|]; cbn [snd]; [|apply ext_refl].
+      destruct (s_worowid sc).
+      - apply failing_grows; intros ci. apply failing_grows; intros troot. apply failing_grows; intros iroot. apply failing_grows; intros pk.
+        apply index_scan_grows; try assumption. intros r; apply via_pk_grows.
+      - apply failing_grows; intros ci. apply failing_grows; intros troot. apply failing_grows; intros iroot.
+        apply index_scan_grows; try assumption. intros r; apply via_rowid_grows.
+    Qed.
+    Lemma h_indexed_select_eq_grows sc table iname k columns s : ext s (snd (h_indexed_select_eq pg op npages S cb sc table iname k columns s)).
+    Proof.
+      unfold h_indexed_select_eq. apply with_master_grows; intros ms; destruct (find_index sc iname) as [ind|]; cbn [snd]; [|apply ext_refl].
+      apply failing_grows; intros dbkey. destruct (s_worowid sc); [|apply indexed_select_eq_grows].
+      apply failing_grows; intros ci. apply failing_grows; intros troot. apply failing_grows; intros iroot. apply failing_grows; intros pk.
+      apply index_scan_eq_grows; try assumption. intros r; apply via_pk_grows.
+    Qed.
+    Lemma h_pk_select_grows sc table k columns s : ext s (snd (h_pk_select pg op npages S cb sc table k columns s)).
+    Proof.
+      unfold h_pk_select. apply with_master_grows; intros ms; destruct (s_worowid sc).
+      - apply failing_grows; intros ci. apply failing_grows; intros troot. apply failing_grows; intros dbkey.
+        apply index_scan_eq_grows; try assumption. intros r; apply cb_grows.
+      - destruct (s_rowidpk sc).
+        + destruct k as [|[| rowid | | |] k']; cbn [snd]; try apply ext_refl.
+          apply failing_grows. intros [rw|]; cbn [snd]; [apply cb_grows|apply ext_refl].
+        + destruct (match s_pkname sc with [] => None | _ :: _ => _ end) as [ind|]; cbn [snd]; [|apply ext_refl].
+          apply failing_grows; intros dbkey. apply indexed_select_eq_grows.
+    Qed.
   End HighOps.
 End FaultHigh.
 
 Lemma collect_hrow_grows limit (r : row) : grows (list row) lext (collect_hrow limit r).
 Proof. intros s. unfold collect_hrow. exists [r]. destruct limit as [k|]; [destruct (k <=? _)|]; reflexivity. Qed.
+
+(* ---- end to end: the schema record itself is read through the faulty pager (sqlite_master -> SQL texts -> tokenizer ->
+   translated parser -> newSchema), then the operation runs ---- *)
+From SQ Require Import Model.E2E.
+Section FaultE2E.
+  Variables pg' pg : Z -> res (list byte).
+  Variables op' op : Z -> res page.
+  Variable npages : nat.
+  Hypothesis Hpg : forall n, le_res (pg' n) (pg n).
+  Hypothesis Hop : forall n, le_res (op' n) (op n).
+  Variable S : Type.
+  Variable ext : S -> S -> Prop.
+  Hypothesis ext_refl : forall s, ext s s.
+  Notation ole := (out_le S ext).
+
+  Lemma with_schema_le s table (k' k : schema -> flow * S) :
+    (forall sc, ole (k' sc) (k sc)) -> (forall sc, ext s (snd (k sc))) ->
+    ole (with_schema pg' op' npages s table k') (with_schema pg op npages s table k).
+  Proof.
+    intros Hk Hg. unfold with_schema. destruct (master_le pg' pg op' op npages Hpg Hop) as [->|(e & x & ->)].
+    - destruct (master pg op npages) as [[| |e] ms]; [| |left; reflexivity]; (destruct (db_schema ms table) as [st|e1]; [apply Hk|left; reflexivity]).
+    - right. exists e. split; [reflexivity|]. cbn [snd].
+      destruct (master pg op npages) as [[| |e0] ms]; cbn [snd]; try apply ext_refl;
+        (destruct (db_schema ms table) as [st|e1]; cbn [snd]; [apply Hg|apply ext_refl]).
+  Qed.
+
+  Hypothesis ext_trans : forall a b c, ext a b -> ext b c -> ext a c.
+  Variable cb : row -> S -> flow * S.
+  Hypothesis cb_grows : forall r, grows S ext (cb r).
+
+  Theorem e_select_fault table columns s :
+    ole (e_select pg' op' npages S cb table columns s) (e_select pg op npages S cb table columns s).
+  Proof.
+    unfold e_select. apply with_schema_le; intros sc.
+    - apply (h_select_fault pg' pg op' op npages Hpg Hop S ext ext_refl ext_trans cb cb_grows).
+    - apply (h_select_grows pg op npages S ext ext_refl ext_trans cb cb_grows).
+  Qed.
+  Theorem e_select_rowid_fault table rowid columns s :
+    ole (e_select_rowid pg' op' npages S cb table rowid columns s) (e_select_rowid pg op npages S cb table rowid columns s).
+  Proof.
+    unfold e_select_rowid. apply with_schema_le; intros sc.
+    - apply (h_select_rowid_fault pg' pg op' op npages Hpg Hop S ext ext_refl cb cb_grows).
+    - apply (h_select_rowid_grows pg op npages S ext ext_refl cb cb_grows).
+  Qed.
+  Theorem e_indexed_select_fault table iname columns s :
+    ole (e_indexed_select pg' op' npages S cb table iname columns s) (e_indexed_select pg op npages S cb table iname columns s).
+  Proof.
+    unfold e_indexed_select. apply with_schema_le; intros sc.
+    - apply (h_indexed_select_fault pg' pg op' op npages Hpg Hop S ext ext_refl ext_trans cb cb_grows).
+    - apply (h_indexed_select_grows pg op npages S ext ext_refl ext_trans cb cb_grows).
+  Qed.
+  Theorem e_indexed_select_eq_fault table iname k columns s :
+    ole (e_indexed_select_eq pg' op' npages S cb table iname k columns s) (e_indexed_select_eq pg op npages S cb table iname k columns s).
+  Proof.
+    unfold e_indexed_select_eq. apply with_schema_le; intros sc.
+    - apply (h_indexed_select_eq_fault pg' pg op' op npages Hpg Hop S ext ext_refl ext_trans cb cb_grows).
+    - apply (h_indexed_select_eq_grows pg op npages S ext ext_refl ext_trans cb cb_grows).
+  Qed.
+  Theorem e_pk_select_fault table k columns s :
+    ole (e_pk_select pg' op' npages S cb table k columns s) (e_pk_select pg op npages S cb table k columns s).
+  Proof.
+    unfold e_pk_select. apply with_schema_le; intros sc.
+    - apply (h_pk_select_fault pg' pg op' op npages Hpg Hop S ext ext_refl ext_trans cb cb_grows).
+    - apply (h_pk_select_grows pg op npages S ext ext_refl ext_trans cb cb_grows).
+  Qed.
+End FaultE2E.
